@@ -103,3 +103,13 @@ Theorem C02_compose_loaded : forall inflate bs f fr img, Forall is_byte bs -> lo
   forall x y, 0 <= x < f_width f -> 0 <= y < f_height f -> spec_pixel f fr x y = Some (img_get img x y).
 Proof. exact frame_image_compose_loaded. Qed.
 Print Assumptions C02_compose_loaded.
+
+(* ... and a pixel inside no visible cel's rectangle is fully transparent, for every file that loads *)
+Theorem C02_uncovered_loaded : forall (inflate : list Z -> Z -> zres) bs f fr img x y,
+  Forall is_byte bs -> load inflate bs = Ok f -> frame_image f fr = Ok img ->
+  0 <= x < f_width f -> 0 <= y < f_height f ->
+  (forall l c0 lay c, 0 <= l < num_layers f -> cel_at f fr l = Some c0 -> visibleb f l = true ->
+     aget (f_layers f) l = Some lay -> resolve f c0 l = Some c -> cel_covers f lay c x y = false) ->
+  img_get img x y = transparent.
+Proof. exact frame_uncovered_loaded. Qed.
+Print Assumptions C02_uncovered_loaded.
